@@ -183,18 +183,18 @@ fn check<D: Codec>(
                     let mut ex = Exec::new(&core, cap);
                     let hdr = v5::Header::new(v5::PacketType::Connect, false, mqtt_proto::QoS::Level0, false, 0);
                     let mut fut = Box::pin(v5::Connect::decode_with_protocol(&mut rd, hdr, p));
-                    ex.run(fut.as_mut()).map(|r| r.map(|c| format!("{:?}", v5::Packet::Connect(c))).map_err(|e| format!("{e:?}")))
+                    ex.run(fut.as_mut()).map(|r| r.map(|c| safe_debug(&v5::Packet::Connect(c))).map_err(|e| format!("{e:?}")))
                 }));
                 let n = fe_block::<V5>(&stream);
-                (r.map(|x| x.unwrap_or_else(|_| Err("stuck".into()))), n.pkt().map(|p| format!("{p:?}")))
+                (r.map(|x| x.unwrap_or_else(|_| Err("stuck".into()))), n.pkt().map(safe_debug))
             } else {
                 let r = guarded(AssertUnwindSafe(|| {
                     let mut ex = Exec::new(&core, cap);
                     let mut fut = Box::pin(v3::Connect::decode_with_protocol(&mut rd, p));
-                    ex.run(fut.as_mut()).map(|r| r.map(|c| format!("{:?}", v3::Packet::Connect(c))).map_err(|e| format!("{e:?}")))
+                    ex.run(fut.as_mut()).map(|r| r.map(|c| safe_debug(&v3::Packet::Connect(c))).map_err(|e| format!("{e:?}")))
                 }));
                 let n = fe_block::<V3>(&stream);
-                (r.map(|x| x.unwrap_or_else(|_| Err("stuck".into()))), n.pkt().map(|p| format!("{p:?}")))
+                (r.map(|x| x.unwrap_or_else(|_| Err("stuck".into()))), n.pkt().map(safe_debug))
             };
             out.evals += 1;
             match (resumed, native_pkt) {
